@@ -223,6 +223,7 @@ func (E *Engine) unop(st *State, x *ssa.UnOp) []*State {
 		r := E.load(st, st.heap, lv)
 		r = retype(r, x.Type())
 		st.assume(E.loadFacts(st, r)...)
+		E.assumeTypeInvs(st, r)
 		st.regs[x] = r
 		return nil
 	case token.NOT:
@@ -486,7 +487,7 @@ func (E *Engine) convert(st *State, x *ssa.Convert) *Val {
 	case fok && tok && (fb.Info()&types.IsFloat != 0 || tb.Info()&types.IsFloat != 0):
 		if fb.Info()&types.IsFloat != 0 && tb.Info()&types.IsInteger != 0 {
 			// float -> int: keep the (integer-modelled) value when it is in range
-			name := qsym("f2i:" + tb.Name())
+			name := qsym("spec:f2i_" + tb.Name())
 			E.declare(name, "(Int) Int")
 			E.note("float->%s conversion is uninterpreted (see ledger axioms)", tb.Name())
 			r := sx(name, v.S)
